@@ -107,6 +107,24 @@ pub fn run(cx: &mut Ctx) {
         }
         for m in all.iter().filter(|m| m.len() != m[0].len()).take(200) { let a = Mat2::new(m.clone()); cb(&|| format!("inverse (non-square) {:?}", m), match guard(|| a.inverse()) { Ok(None) => Ok(()), Ok(Some(_)) => Err("Some(..) for a non-square matrix".into()), Err(e) => Err(e) }); }
     });
+    cx.check("inverse_large", |cb| {
+        // invertible by construction: random row additions applied to the identity (dense for larger n)
+        let mut sd = 0xD1B54A32D192ED03u64;
+        let mut nx = move |m: usize| { sd ^= sd << 13; sd ^= sd >> 7; sd ^= sd << 17; (sd >> 11) as usize % m };
+        for &n in &[8usize, 12, 16, 20, 24, 32] { for rep in 0..6 {
+            let mut m = ident(n);
+            for _ in 0..n * n { let (a, b) = (nx(n), nx(n)); if a != b { let src = m[a].clone(); for j in 0..n { m[b][j] ^= src[j]; } } }
+            let a = Mat2::new(m.clone());
+            let v = match guard(|| a.inverse()) { Err(e) => Err(e), Ok(None) => Err("None for a matrix that is invertible by construction".into()),
+                Ok(Some(inv)) => { let i = rows_of(&inv); if mul(&i, &m) == ident(n) && mul(&m, &i) == ident(n) { Ok(()) } else { Err("the returned matrix is not a two-sided inverse".into()) } } };
+            cb(&|| format!("{}x{} product of random row additions, instance {} ({} ones)", n, n, rep, m.iter().map(|r| r.iter().filter(|&&x| x == 1).count()).sum::<usize>()), v);
+            let mut sing = m.clone(); sing[n - 1] = sing[0].clone();
+            let s = Mat2::new(sing);
+            cb(&|| format!("{}x{} singular (repeated row), instance {}", n, n, rep), match guard(|| s.inverse()) { Ok(None) => Ok(()), Ok(Some(_)) => Err("Some(..) for a singular matrix".into()), Err(e) => Err(e) });
+            let r = guard(|| a.rank());
+            cb(&|| format!("rank of {}x{} invertible, instance {}", n, n, rep), match r { Ok(r) if r == n => Ok(()), Ok(r) => Err(format!("rank {}", r)), Err(e) => Err(e) });
+        } }
+    });
     cx.check("nullspace", |cb| {
         for m in &all {
             let a = Mat2::new(m.clone());
@@ -133,7 +151,11 @@ pub fn run(cx: &mut Ctx) {
         }
         for a in &small { for b in &small {
             let (ma, mb) = (Mat2::new((*a).clone()), Mat2::new((*b).clone()));
-            if a[0].len() == b.len() { let p = guard(|| rows_of(&(&ma * &mb))); cb(&|| format!("{:?} * {:?}", a, b), match p { Ok(p) if p == mul(a, b) => Ok(()), Ok(p) => Err(format!("got {:?}", p)), Err(e) => Err(e) }); }
+            if a[0].len() == b.len() {
+                let want = mul(a, b);
+                let variants: Vec<(&str, Result<M, String>)> = vec![("&a * &b", guard(|| rows_of(&(&ma * &mb)))), ("a * &b", guard(|| rows_of(&(ma.clone() * &mb)))), ("&a * b", guard(|| rows_of(&(&ma * mb.clone())))), ("a * b", guard(|| rows_of(&(ma.clone() * mb.clone()))))];
+                for (vn, p) in variants { cb(&|| format!("{}: {:?} * {:?}", vn, a, b), match p { Ok(p) if p == want => Ok(()), Ok(p) => Err(format!("got {:?}", p)), Err(e) => Err(e) }); }
+            }
             if a[0].len() == b[0].len() { let s = guard(|| rows_of(&ma.vstack(&mb))); let mut w = (*a).clone(); w.extend((*b).clone()); cb(&|| format!("vstack {:?} {:?}", a, b), match s { Ok(s) if s == w => Ok(()), Ok(s) => Err(format!("got {:?}", s)), Err(e) => Err(e) }); }
             if a.len() == b.len() { let s = guard(|| rows_of(&ma.hstack(&mb))); let w: M = a.iter().zip(b.iter()).map(|(x, y)| { let mut r = x.clone(); r.extend(y.clone()); r }).collect(); cb(&|| format!("hstack {:?} {:?}", a, b), match s { Ok(s) if s == w => Ok(()), Ok(s) => Err(format!("got {:?}", s)), Err(e) => Err(e) }); }
         } }
